@@ -69,6 +69,7 @@ type c13Case struct {
 	ListKind    string           `json:"list_kind"`  // in | containsAll | containsSome
 	NodeProps   map[string]m.Lit `json:"node_props"` // values of the reported node for placeholder properties (absent = null)
 	ProfileText string           `json:"profile_text"`
+	Route       int              `json:"route,omitempty"` // entry point producing the report (see validateVia)
 }
 
 var placeholderRe = regexp.MustCompile(`\{\{\s*([\w-]+\.[\w-]+)\s*}}`)
@@ -121,6 +122,7 @@ func genC13(t *rapid.T) c13Case {
 	v.Set("propertyConstraints", m.YMap().Set("ex.pv", m.YMap().Set(c.ListKind, m.YSeq(m.YStr(c.Value.S)))))
 	y.Set("validations", m.YMap().Set(c.VName.S, v))
 	c.ProfileText = y.Print(m.YOpts{Quote: 1})
+	c.Route = rapid.SampledFrom([]int{0, 0, 1, 2, 3}).Draw(t, "route")
 	return c
 }
 
@@ -171,7 +173,7 @@ func decideC13(c c13Case) ev.Verdict {
 	for p, l := range c.NodeProps {
 		g.Nodes[bad].AddVal(m.NS+p, m.LV(l))
 	}
-	res := validateFixed(c.ProfileText, g.JSONLD(m.LDOpts{}))
+	res := validateVia(c.Route, c.ProfileText, g.JSONLD(m.LDOpts{}))
 	labels := []string{}
 	for _, x := range []struct {
 		pos string
